@@ -17,23 +17,23 @@ import dataflow_oracle as do
 import dataflow_scenarios as ds
 
 STATIC_KEYS = {
-    'C06': [('quiescent', 'worklist model reaches quiescence within its fuel'),
+    'C06': [('quiescent', 'worklist model is quiescent with the proved fuel bound (C06_worklist_terminates; sanity)'),
             ('start', 'visited set contains the entry node'), ('closed', 'visited set closed under successor edges'),
             ('postfix', 'real in_/out are a post-fixed point (the inclusions soundness needs)'),
             ('fix', 'real in_/out are a fixed point of the transfer equations (equality; the property\'s literal last clause)'),
             ('unvisited_empty', 'nodes never visited keep their initial (empty) state'),
-            ('model_eq', 'worklist MODEL run on the same inputs reproduces the real in_/out exactly'),
+            ('model_eq', 'isLeast: the real in_/out equal the model run = the LEAST fixed point (C06_worklist_lfp, C06_real_is_lfp)'),
             ('genmap', 'real gen_map == model gen on the same Scope'),
             ('prev_incomplete', 'stmt_prev contains every outside predecessor of the statement'),
             ('defined_in_uncovered', 'DEFINED_VARS_IN ⊇ symbols defined at the exit of every statement predecessor'),
             ('defined_in_loose', 'DEFINED_VARS_IN ⊆ that union (literal equality)'),
             ('names_bad', 'DEFINITIONS(name) == definitions of its variable in in_/out of the CFG node evaluating it')],
-    'C07': [('quiescent', 'worklist models reach quiescence within their fuel'),
+    'C07': [('quiescent', 'worklist models are quiescent with the proved fuel bound (C07_worklist_terminates; sanity)'),
             ('start', 'visited set contains the exit nodes'), ('closed', 'visited set closed under predecessor edges'),
             ('postfix', 'real in_/out are a post-fixed point of the liveness equations (the inclusions soundness needs)'),
             ('fix', 'real in_/out solve the liveness equations with equality (the property\'s literal last clause)'),
             ('unvisited_empty', 'nodes never visited keep their initial (empty) state'),
-            ('model_eq', 'worklist MODEL run in reverse on the same inputs reproduces the real in_/out exactly'),
+            ('model_eq', 'isLeast: the real in_/out equal the model run = the LEAST solution of the liveness equations (C07_worklist_lfp, C07_real_is_lfp)'),
             ('fnd_start', 'reaching-fndefs: visited set contains the entry'), ('fnd_closed', 'reaching-fndefs: visited set closed'),
             ('fnd_postfix', 'reaching-fndefs: real in_/out are a post-fixed point and contain the external definitions'),
             ('fns_in_anno', 'DEFINED_FNS_IN annotation == reaching-fndefs in_'),
